@@ -71,7 +71,7 @@ def main():
         # demo scripts written by the seeding agents refer to their own worktree; point them at ours
         s = open(demo).read()
         demo2 = f"{MUT}/demo.sh"
-        open(demo2, "w").write(re.sub(r"/tmp/w[t2]-C\d+", REPO, s))
+        open(demo2, "w").write(re.sub(r"/tmp/w[t0-9]+-C\d+", REPO, s))
         demo = demo2
     if confirm and demo:
         rc, out = run_demo(demo)
